@@ -99,26 +99,21 @@ func cmdCheck(args []string) {
 	funcs := map[string]bool{}
 	var notes []string
 	assumptions := map[string]bool{}
+	allUnits := map[string]*Unit{}
+	var order []string
 	for _, fn := range p.unitsToVerify() {
 		u := p.verifyFunc(fn)
-		has := false
-		for _, o := range u.obligs {
-			if hasProp(o.Props, *prop) {
-				obs = append(obs, o)
-				has = true
-			}
+		allUnits[u.fnShort(fn)+"@"+fn.Pkg.Pkg.Path()] = u
+		order = append(order, u.fnShort(fn)+"@"+fn.Pkg.Pkg.Path())
+	}
+	inSet := map[*Unit]bool{}
+	addUnit := func(u *Unit) {
+		if inSet[u] {
+			return
 		}
-		if u.fc != nil {
-			for _, c := range u.fc.Clauses {
-				if hasProp(c.Props, *prop) {
-					has = true
-				}
-			}
-		}
-		if !has {
-			continue
-		}
+		inSet[u] = true
 		units = append(units, u)
+		fn := u.fn
 		funcs[p.keyOf[fn]] = true
 		if u.unsupported != "" {
 			notes = append(notes, fmt.Sprintf("%s: outside the supported subset: %s", p.keyOf[fn], u.unsupported))
@@ -133,6 +128,68 @@ func cmdCheck(args []string) {
 		}
 		for _, a := range u.usedAssume {
 			assumptions[a] = true
+		}
+	}
+	have := map[*Oblig]bool{}
+	for _, k := range order {
+		u := allUnits[k]
+		has := false
+		for _, o := range u.obligs {
+			if hasProp(o.Props, *prop) {
+				obs = append(obs, o)
+				have[o] = true
+				has = true
+			}
+		}
+		if u.fc != nil {
+			for _, c := range u.fc.Clauses {
+				if hasProp(c.Props, *prop) {
+					has = true
+				}
+			}
+		}
+		if has {
+			addUnit(u)
+		}
+	}
+	// dependencies: ensures clauses of in-module callees that the units above relied upon (transitively)
+	depNames := map[string]bool{}
+	bounded := map[string]string{}
+	for changed := true; changed; {
+		changed = false
+		for _, u := range units {
+			for n := range u.usedEnsures {
+				if !depNames[n] {
+					depNames[n] = true
+					changed = true
+				}
+			}
+			for c, ad := range u.usedBounded {
+				bounded[c] = ad
+			}
+		}
+		for _, k := range order {
+			u := allUnits[k]
+			for _, o := range u.obligs {
+				if o.Kind == "ensures" && depNames[o.Name] && !have[o] {
+					have[o] = true
+					obs = append(obs, o)
+					if !inSet[u] {
+						addUnit(u)
+						changed = true
+					}
+				}
+			}
+		}
+	}
+	for _, u := range units {
+		if u.fc == nil {
+			continue
+		}
+		for _, c := range u.fc.Clauses {
+			if c.Kind == "ensures-bounded" && hasProp(c.Props, *prop) {
+				bounded[c.Label+" ("+u.fnShort(u.fn)+")"] = c.Callee
+			}
 		}
 	}
 	unbound := p.unboundContracts()
@@ -283,6 +340,47 @@ func cmdCheck(args []string) {
 		os.MkdirAll(filepath.Join(*verif, "baseline"), 0755)
 		os.WriteFile(filepath.Join(*verif, "baseline", "obligations.json"), append(b, '\n'), 0644)
 		fmt.Printf("ledger: %d obligations recorded for %s\n", len(ds), *prop)
+	}
+
+	// bounded stand-ins (never counted as discharged)
+	var boundedRecs []map[string]interface{}
+	var boundedViolations []string
+	{
+		ran := map[string]string{}
+		var keys []string
+		for c := range bounded {
+			keys = append(keys, c)
+		}
+		sort.Strings(keys)
+		for _, c := range keys {
+			ad := bounded[c]
+			out, ok := ran[ad]
+			if !ok {
+				_, o, _, err := runReplay(p, *verif, ad, map[string]string{"tier": "\"" + *tier + "\""}, sd)
+				if err != nil {
+					broken("bounded adapter %s: %v", ad, err)
+				}
+				out = o
+				ran[ad] = out
+			}
+			res := "pass"
+			if strings.Contains(out, "PROPERTY-VIOLATED") {
+				res = "VIOLATED"
+				f := filepath.Join(filepath.Join(*verif, "evidence", "replay"), sanitize("bounded."+ad)+".json")
+				os.MkdirAll(filepath.Dir(f), 0755)
+				b, _ := json.MarshalIndent(map[string]interface{}{"property": *prop, "obligation": c, "bounded_adapter": ad, "replay_adapter": ad, "verdict": "bounded check found a failing input on the real code", "replay_output": replayExcerpt(out), "replay_test_source": ran[ad+"#src"]}, "", " ")
+				os.WriteFile(f, b, 0644)
+				boundedViolations = append(boundedViolations, fmt.Sprintf("VIOLATION property=%s replay=%s obligation=%s", *prop, f, c))
+			} else if !strings.Contains(out, "BOUNDED-OK") {
+				broken("bounded adapter %s did not complete: %s", ad, truncate(out, 400))
+			}
+			bound := ""
+			if m := regexp.MustCompile(`BOUNDED-OK ([^\n]*)`).FindStringSubmatch(out); m != nil {
+				bound = m[1]
+			}
+			boundedRecs = append(boundedRecs, map[string]interface{}{"clause": c, "adapter": ad, "result": res, "bound": bound})
+			assumptions["bounded stand-in (not proved): "+c+" via replay/"+ad+".go.tmpl: "+bound] = true
+		}
 	}
 
 	// 4. verdicts
@@ -449,11 +547,12 @@ func cmdCheck(args []string) {
 			"notes":                    notes,
 			"second_solver_confirmed":  confirmed,
 			"second_solver_undecided":  unconfirmed,
-			"bounded":                  []string{},
+			"bounded":                  boundedRecs,
+			"dependencies":             sortedKeys(depNames),
 		},
 		"assumptions": as,
 		"wall_s":      wall,
-		"violations":  len(violations),
+		"violations":  len(violations) + len(boundedViolations),
 	}
 	if !*noEvidence {
 		b, _ := json.MarshalIndent(ev, "", " ")
@@ -469,6 +568,7 @@ func cmdCheck(args []string) {
 	if len(undecidedNew) > 0 {
 		fmt.Printf("not counted (not in baseline, undecided or unconfirmed): %v\n", undecidedNew)
 	}
+	violations = append(violations, boundedViolations...)
 	if len(violations) > 0 {
 		for _, v := range violations {
 			fmt.Println(v)
@@ -688,7 +788,7 @@ func runReplay(p *Prog, verif, adapter string, model map[string]string, scratch 
 	ob, _ := json.Marshal(ov)
 	of := filepath.Join(scratch, "overlay_"+adapter+".json")
 	os.WriteFile(of, ob, 0644)
-	cmd := exec.Command("go", "test", "-overlay", of, "-vet=off", "-count=1", "-timeout", "60s", "-run", "^TestVerifReplay$", "./"+dir)
+	cmd := exec.Command("go", "test", "-overlay", of, "-vet=off", "-count=1", "-timeout", "300s", "-v", "-run", "^TestVerifReplay$", "./"+dir)
 	cmd.Dir = p.repo
 	cmd.Env = append(os.Environ(), "GOFLAGS=-mod=mod", "GOPROXY=off", "GOSUMDB=off", "GOTOOLCHAIN=local")
 	b, _ := cmd.CombinedOutput()
@@ -755,4 +855,13 @@ func replayExcerpt(out string) string {
 		hi = len(out)
 	}
 	return out[:1200] + "\n...\n" + out[lo:hi]
+}
+
+func sortedKeys(m map[string]bool) []string {
+	var ks []string
+	for k := range m {
+		ks = append(ks, k)
+	}
+	sort.Strings(ks)
+	return ks
 }
